@@ -186,6 +186,8 @@ mod meta_help;
 mod meta_youmean;
 pub mod params;
 mod structs;
+#[cfg(bpaf_verif)]
+pub mod verif;
 #[cfg(test)]
 mod tests;
 
